@@ -80,6 +80,13 @@ pub struct Driver {
     pub kf_shapes: bool,
 }
 
+/// keys a client may put into a set / cset / delete request in this check: everything that does not
+/// reach $SYS or the marker key, including keys the leader rejects (empty key, wildcard segments) -
+/// a rejected request is forwarded as well and must leave the follower unchanged too
+fn requestable(key: &str) -> bool {
+    !key.starts_with("$SYS") && key != "verif/marker"
+}
+
 fn is_literal(key: &str) -> bool {
     !key.is_empty() && !key.split('/').any(|s| s == "?" || s == "#") && !key.starts_with("$SYS") && key != "verif/marker"
 }
@@ -150,14 +157,14 @@ impl Driver {
             LOp::Set(c, key, value) => {
                 // a plain value of the shape {"Cas":[v,n]} is ambiguous in the store tree format
                 // (listed known finding D10 of C09): not generated here
-                if !is_literal(key) || crate::model::looks_like_cas_tag(value) {
+                if !requestable(key) || crate::model::looks_like_cas_tag(value) {
                     return Ok(());
                 }
                 let r = api.set(key.clone(), value.clone(), cid(*c)).await;
                 count(r.is_ok(), &mut self.stats);
             }
             LOp::CSet(c, key, value, ver) => {
-                if !is_literal(key) {
+                if !requestable(key) {
                     return Ok(());
                 }
                 let cur = api.cget(key.clone()).await.map(|x| x.1).unwrap_or(0);
@@ -173,7 +180,7 @@ impl Driver {
                 count(r.is_ok(), &mut self.stats);
             }
             LOp::Delete(c, key) => {
-                if !is_literal(key) {
+                if !requestable(key) {
                     return Ok(());
                 }
                 let r = api.delete(key.clone(), cid(*c)).await;
@@ -190,7 +197,7 @@ impl Driver {
             LOp::Import(entries) => {
                 let es: Vec<(String, Entry)> = entries
                     .iter()
-                    .filter(|(k, v, cas)| is_literal(k) && !(cas.is_none() && crate::model::looks_like_cas_tag(v)))
+                    .filter(|(k, v, _)| is_literal(k) && !crate::model::looks_like_cas_tag(v))
                     .map(|(k, v, cas)| (k.clone(), Entry { value: v.clone(), cas: if self.kf_shapes { *cas } else { None } }))
                     .collect();
                 if es.is_empty() {
@@ -439,14 +446,16 @@ pub fn check_case(case: &Case, kfs: &KnownFindings) -> Result<CaseReport, Failur
 
 pub fn lop() -> BoxedStrategy<LOp> {
     let key = || prop_oneof![8 => ops::key(), 1 => Just("x/y".to_owned())];
+    // keys of write requests also take shapes the leader rejects
+    let wkey = || prop_oneof![12 => key(), 1 => Just(String::new()), 1 => Just("a/?".to_owned()), 1 => Just("a/#".to_owned()), 1 => Just("?".to_owned())];
     let pat = || prop_oneof![4 => ops::pattern(), 3 => key(), 1 => ops::bad_pattern()];
     let val = || crate::jgen::value(true, false);
     prop_oneof![
         2 => (0..3u8).prop_map(LOp::Connect),
         2 => (0..3u8).prop_map(LOp::Disconnect),
-        10 => (0..3u8, key(), val()).prop_map(|(c, k, v)| LOp::Set(c, k, v)),
-        6 => (0..3u8, key(), val(), prop_oneof![4 => Just(Ver::Current), 1 => Just(Ver::Stale), 2 => Just(Ver::Zero)]).prop_map(|(c, k, v, ver)| LOp::CSet(c, k, v, ver)),
-        4 => (0..3u8, key()).prop_map(|(c, k)| LOp::Delete(c, k)),
+        10 => (0..3u8, wkey(), val()).prop_map(|(c, k, v)| LOp::Set(c, k, v)),
+        6 => (0..3u8, wkey(), val(), prop_oneof![4 => Just(Ver::Current), 1 => Just(Ver::Stale), 2 => Just(Ver::Zero)]).prop_map(|(c, k, v, ver)| LOp::CSet(c, k, v, ver)),
+        4 => (0..3u8, wkey()).prop_map(|(c, k)| LOp::Delete(c, k)),
         3 => (0..3u8, pat()).prop_map(|(c, p)| LOp::PDelete(c, p)),
         2 => proptest::collection::vec((key(), val(), prop_oneof![2 => Just(None), 1 => (1..9u64).prop_map(Some)]), 1..=3).prop_map(LOp::Import),
         3 => (0..3u8, proptest::collection::vec(pat(), 0..=2)).prop_map(|(c, p)| LOp::GraveGoods(c, p)),
